@@ -21,6 +21,7 @@ PROP = {
         "Xt.Props.Fidelity.int_width_irrelevant",
         "Xt.Props.Fidelity.unrepresentable_is_error",
         "Xt.Props.Fidelity.bin_value_becomes_array",
+        "Xt.Props.Fidelity.failing_document_streamed",
         "Xt.Props.Fidelity.minus_zero_is_float",
         "Xt.Props.Fidelity.five_stays_integer",
         "Xt.Props.Fidelity.bridge_refines_transcoder",
